@@ -641,9 +641,10 @@ def _remaining_width(ctx):
     if fn is None or rem is None or hn is None:
         raise AnalysisBroken("anchor functions carquet_reader_get_column / carquet_column_remaining / carquet_column_has_next not found")
     key = "remaining-width|%s:carquet_reader_get_column" % FR
-    what = "a fresh column reader over a chunk of 2^31 + 1000 values reports 2^31 + 1000 remaining and has_next true"
+    what = ("a fresh column reader over a chunk of 2^31 + 1000 values (a repeated leaf, max repetition level 3, in a row group of 5 rows) "
+            "reports 2^31 + 1000 remaining and has_next true")
     try:
-        fn, ret, heap, cro = C17.column_reader_probe(P, num_values=N)
+        fn, ret, heap, cro = C17.column_reader_probe(P, num_values=N, num_rows=5)
         if not isinstance(ret, Ptr):
             raise sem.Inconclusive("carquet_reader_get_column returns %r" % (ret,))
         r, e1, h1 = sem.run(P, rem, [ret], heap0=heap, hooks={}, single=True, max_forks=4, budget=20000)
